@@ -95,8 +95,8 @@ func genCloseSpec(seed uint64, tier string) *spec.RunSpec {
 	}
 	cs := &spec.CloseSpec{HorizonUs: 120000000}
 	idleChoices := []int64{0, 1000, 300000, 2000000, 4900000, 5100000, 7000000, 12000000, 65000000}
-	profile := r.Pick(0, 0, 1, 2, 3, 4, 5, 6) // 0 plain close, 1 back-pressure, 2 deadlines, 3 stop events, 4 underlay failure, 5 stop/failure under back-pressure, 6 one-way use
-	s.Profile = fmt.Sprintf("c15-%s-%s", tr, []string{"close", "backpressure", "deadlines", "stop", "failure", "backpressure-stop", "oneway"}[profile])
+	profile := r.Pick(0, 0, 1, 2, 3, 4, 5, 6, 7, 7) // 0 plain close, 1 back-pressure, 2 deadlines, 3 stop events, 4 underlay failure, 5 stop/failure under back-pressure, 6 one-way use, 7 stop while the network is silent
+	s.Profile = fmt.Sprintf("c15-%s-%s", tr, []string{"close", "backpressure", "deadlines", "stop", "failure", "backpressure-stop", "oneway", "silent-then-stop"}[profile])
 	bpWriterSide := ""
 	for ci, c := range s.Clients {
 		for _, se := range c.Sessions {
@@ -180,6 +180,15 @@ func genCloseSpec(seed uint64, tier string) *spec.RunSpec {
 			s.Profile += "-during-dial"
 		}
 		cs.Events = append(cs.Events, spec.Event{AtUs: evAt, Kind: kind, Arg: 0})
+	case 7:
+		// the network goes silent (nothing arrives any more, so no datagram or byte wakes a
+		// blocked read) and shortly afterwards one side is stopped while its sessions are live
+		hole := "udp-blackhole"
+		if tr == "tcp" {
+			hole = "blackhole"
+		}
+		cs.Events = append(cs.Events, spec.Event{AtUs: evAt, Kind: hole, Arg: 0})
+		cs.Events = append(cs.Events, spec.Event{AtUs: evAt + int64(r.Pick(1000, 100000, 1000000, 3000000)), Kind: []string{"client-stop", "server-stop", "server-stop"}[r.Intn(3)], Arg: 0})
 	case 5:
 		evAt = int64(r.Pick(20000000, 40000000))
 		kind := bpWriterSide + "-stop"
@@ -217,7 +226,7 @@ func genCloseSpec(seed uint64, tier string) *spec.RunSpec {
 	}
 	cs.HorizonUs = longest + 25000000
 	switch profile {
-	case 3, 5:
+	case 3, 5, 7:
 		cs.HorizonUs = max(cs.HorizonUs, evAt+30000000)
 	case 4:
 		cs.HorizonUs = max(cs.HorizonUs, evAt+100000000)
